@@ -9,7 +9,7 @@ files = re.findall(r"^\+\+\+ b/(\S+)", open(patch).read(), re.M)
 UNITS = {"src/quadwt/mod.rs": ["qwt_u64"], "src/qvector/mod.rs": ["qvector"], "src/qvector/rs_qvector.rs": ["rsq"],
          "src/qvector/rs_qvector/rs_support_plain.rs": ["rsq"], "src/bitvector/mod.rs": ["bitvector"], "src/bitvector/rs_wide.rs": ["rswide"],
          "src/bitvector/rs_narrow.rs": ["rsnarrow"], "src/darray/mod.rs": ["darray"], "src/binwt/mod.rs": ["wt_u64"],
-         "src/utils/mod.rs": ["utils_u64", "qwt_u64"], "src/quadwt/prefetch_support.rs": ["prefetch"]}
+         "src/utils/mod.rs": ["utils_u64", "utils_u8", "qwt_u64", "wt_u64", "bitvector"], "src/quadwt/prefetch_support.rs": ["prefetch"]}
 target = tempfile.mkdtemp(prefix="refac-", dir="/dev/shm")
 try:
     subprocess.run(["rsync", "-a", "--exclude", "target", "--exclude", ".git", "/repo/", target + "/"], check=True)
